@@ -1,11 +1,16 @@
 (** Property C18 — text / file round trips; parser totality.
-    Status: totality is proved for every string.  The round-trip statement
-      [from_string (ws ++ prefix ++ render r ++ ws') = POk r]  (reserved name C18_roundtrip_string)
-    and [read_text (write_text d) = POk d] (reserved name C18_roundtrip_file) are, in this version,
-    decided by the correspondence check only (the model's own parser and printer are evaluated on every
-    generated ranking / dataset next to the library's). *)
-From Corankco Require Import Prelude Parser ParserProof.
-From Coq Require Import Ascii String.
+    Status: proved on the model.  Totality: every string is parsed or refused with ValueError, the scanner loop
+    never runs out of fuel.  Round trips: for every printable ranking (non-empty disjoint buckets of non-negative
+    integers, or of strings without the delimiters [ ] { } , : and without white space at either end that are not
+    all digits), [from_string] applied to its textual form - in brace or bracket notation, between any white
+    space, after any prefix ending with a colon - gives the ranking back ([C18_roundtrip_string],
+    [C18_roundtrip_string_prefixed]); for every dataset of such rankings (all integers, or all strings that
+    Python's int() refuses, no newline inside a name) reading the text written for it gives the dataset back
+    ([C18_roundtrip_file]).  The model's parser and printer follow utils.py / ranking.py index for index
+    (find / rfind / slices with Python's clamping) and are compared with the library on every string of
+    length <= 4 (5) over the format alphabet and on generated rankings / datasets. *)
+From Corankco Require Import Prelude Parser ParserProof RoundTrip.
+From Coq Require Import Ascii String Lia.
 Local Open Scope Z_scope.
 
 (** any text is either parsed or refused with ValueError: the scanner loop never runs out of fuel *)
@@ -22,6 +27,54 @@ Theorem C18_read_text_total : forall text,
   (exists d, read_text text = POk d) \/ read_text text = PValueError.
 Proof. exact read_text_total. Qed.
 Print Assumptions C18_read_text_total.
+
+(** the round trip through a string *)
+Theorem C18_roundtrip_string : forall opn cls r w1 w2,
+  delims opn cls -> printable r -> all_ws w1 -> all_ws w2 ->
+  from_string (w1 ++ render opn cls r ++ w2) = POk r.
+Proof. exact roundtrip_string. Qed.
+Print Assumptions C18_roundtrip_string.
+
+Theorem C18_roundtrip_string_prefixed : forall opn cls r A w3 w2,
+  delims opn cls -> printable r -> all_ws w3 -> all_ws w2 ->
+  from_string (A ++ ":"%char :: w3 ++ render opn cls r ++ w2) = POk r.
+Proof. exact roundtrip_string_prefixed. Qed.
+Print Assumptions C18_roundtrip_string_prefixed.
+
+(** the round trip through a file *)
+Theorem C18_roundtrip_file : forall d, file_dataset d -> read_text (write_text d) = POk d.
+Proof. exact roundtrip_file. Qed.
+Print Assumptions C18_roundtrip_file.
+
+(** non-vacuity: the hypotheses are met by rankings of integers, by rankings of strings (with an inner blank,
+    with digits inside), by the empty ranking, and by datasets containing an empty ranking *)
+Lemma gstr_intro s : s <> [] -> forallb (fun c => negb (forbidden c)) s = true ->
+  is_ws (hd " "%char s) = false -> is_ws (last s " "%char) = false -> gstr s.
+Proof.
+  intros Hne H1 H2 H3. split; [exact H1|]. split.
+  - destruct s as [|c t]; [contradiction|]. exists c, t. split; [reflexivity|exact H2].
+  - destruct (exists_last Hne) as (t & c & E). exists t, c. split; [exact E|]. rewrite E, last_last in H3. exact H3.
+Qed.
+Ltac okn := first [ (apply ok_int; lia) | (apply ok_str; [apply gstr_intro; [discriminate|reflexivity|reflexivity|reflexivity]|reflexivity]) ].
+Ltac okr := unfold okranking; repeat (first [apply Forall_cons | apply Forall_nil | split | discriminate | okn ]).
+Ltac nd := repeat (first [apply NoDup_nil | (apply NoDup_cons; [cbn; intuition discriminate|])]).
+Ltac allk := intros b x Hb Hx; cbn in Hb; repeat (destruct Hb as [<-|Hb]; [cbn in Hx; repeat (destruct Hx as [<-|Hx]; [eexists; reflexivity|]); destruct Hx|]); destruct Hb.
+Ltac fd_rank := split; [okr|]; split; [cbn; nd|]; repeat (first [apply Forall_cons | apply Forall_nil | exact I | (cbn; intros [H|[]]; discriminate) | (cbn; intuition discriminate)]).
+Ltac allk3 := intros r b x Hr Hb Hx; cbn in Hr; repeat (destruct Hr as [<-|Hr]; [cbn in Hb; repeat (destruct Hb as [<-|Hb]; [cbn in Hx; repeat (destruct Hx as [<-|Hx]; [eexists; try split; reflexivity|]); destruct Hx|]); destruct Hb|]); destruct Hr.
+
+Example C18_printable_ints : printable [[NInt 3; NInt 12]; [NInt 0]].
+Proof. split; [okr|]. split; [left; allk|cbn; nd]. Qed.
+Example C18_printable_strs :
+  printable [[NStr (list_ascii_of_string "a b")]; [NStr (list_ascii_of_string "c1"); NStr (list_ascii_of_string "-")]].
+Proof. split; [okr|]. split; [right; allk|cbn; nd]. Qed.
+Example C18_printable_empty : printable [].
+Proof. split; [okr|]. split; [left; intros b x []|cbn; nd]. Qed.
+Example C18_file_dataset_ints : file_dataset [[[NInt 3; NInt 12]; [NInt 0]]; []; [[NInt 7]]].
+Proof. split; [repeat (first [apply Forall_nil | (apply Forall_cons; [fd_rank|])])|left; allk3]. Qed.
+Example C18_file_dataset_strs :
+  file_dataset [[[NStr (list_ascii_of_string "a b")]]; [[NStr (list_ascii_of_string "x")]; [NStr (list_ascii_of_string "a b")]]].
+Proof. split; [repeat (first [apply Forall_nil | (apply Forall_cons; [fd_rank|])])|right; allk3]. Qed.
+
 
 (** tests (not theorems about all inputs): concrete round trips evaluated in the model *)
 Example C18_roundtrip_examples :
